@@ -911,6 +911,35 @@ pub fn record(inp: &FInput, mask: &Option<Vec<bool>>, full_line: bool) -> (Optio
             Err(msg) => fails.push(TessFail { prop: "C09", what: "building the same tessellation a second time panics".into(), detail: json!({"message": msg}) }),
         }
     }
+    // ---- the same integrator after with_faces (3D): the mask must still select the same cells, at the same positions, with the
+    // same measures up to rounding (C07: restriction to the mask; C13: cells with and without stored face information agree)
+    if inp.dim == 3 {
+        match guarded(|| integ.clone().with_faces()) {
+            Ok(wf) => {
+                let convf = Voronoi::from(&wf);
+                for i in 0..n {
+                    let cell = wf.get_cell_at(i);
+                    if cell.is_some() != active[i] || cell.map_or(false, |c| c.idx != i) {
+                        fails.push(TessFail { prop: "C07", what: "after with_faces, get_cell_at(i) is not the cell of generator i exactly for the selected generators".into(),
+                            detail: json!({"cell": i, "selected": active[i], "present": cell.is_some(), "idx": cell.map(|c| c.idx)}) });
+                        break;
+                    }
+                    let (v0, v1) = (direct.cells()[i].volume(), convf.cells()[i].volume());
+                    if (v0 - v1).abs() > tol_vol || (v1 != 0.0) != active[i] && inp.min_sep_rel() > 1e-4 {
+                        fails.push(TessFail { prop: "C07", what: "tessellation converted from the integrator with faces differs from the direct (masked) build".into(),
+                            detail: json!({"cell": i, "selected": active[i], "volume_direct": v0, "volume_with_faces": v1}) });
+                        break;
+                    }
+                }
+                let vf = wf.compute_cell_integrals::<VolumeCentroidIntegral>();
+                if vf.len() != vols.len() || vf.iter().zip(vols.iter()).any(|(a, b)| (a.volume - b.volume).abs() > tol_vol) {
+                    fails.push(TessFail { prop: "C13", what: "cell integrals with stored face information differ from those without".into(),
+                        detail: json!({"with_faces": vf.len(), "without": vols.len()}) });
+                }
+            }
+            Err(msg) => fails.push(TessFail { prop: "C05", what: "panic in with_faces".into(), detail: json!({"message": msg}) }),
+        }
+    }
     let wq: Vec<i64> = (0..3).map(|k| qi(width[k] / l)).collect();
     let line = json!({
         "far": far,
